@@ -7,7 +7,12 @@ Inductive entry :=
 | EVerify       (* op.VerifyJWTAssertion *)
 | EClientAuth   (* op.ClientJWTAuth *)
 | EPrivateKey   (* op.AuthorizePrivateJWTKey *)
-| EGrant.       (* op.JWTProfile handler, identity passed to ValidateJWTProfileScopes *)
+| EGrant        (* op.JWTProfile handler, identity passed to ValidateJWTProfileScopes *)
+| ERouter (legacy : bool) (client_id : string).
+    (* POST /device_authorization with a client_assertion on the real router (Provider /
+       LegacyServer) of ONE long-lived dynamic-issuer provider; [client_id] = the plain
+       client_id form parameter sent along ("" = none); identity = the client the device
+       authorization was stored for; v_issuer = the issuer of this request's host *)
 
 Inductive input :=
 | IAssert (e : entry) (helper : bool)   (* helper: built by the library's client helpers *)
@@ -32,6 +37,12 @@ Definition model_assert (e : entry) (v : vcfg) (t : keytable) (cl : clienttable)
   | EPrivateKey => res_map (fun id => (id, "")) (authorize_private_jwt_key sym_verify v t cl now tok)
   | EGrant =>   (* the handler's error answer is not classified: every error is EOther *)
       match jwt_profile_grant sym_verify v t now tok with
+      | Ok id => Ok (id, "")
+      | Err _ => Err EOther
+      end
+  | ERouter legacy _ =>   (* HTTP error answers are not classified either *)
+      match (if legacy then authorize_private_jwt_key sym_verify v t cl now tok
+             else provider_router_auth sym_verify v t cl now tok) with
       | Ok id => Ok (id, "")
       | Err _ => Err EOther
       end
@@ -79,7 +90,11 @@ Definition must_accept (e : entry) (v : vcfg) (t : keytable) (cl : clienttable) 
   && Z.leb 0 (v_offset v) && (Z.eqb (v_max_age v) 0 || Z.leb (3600 * second) (v_max_age v))
   && Z.ltb 0 (c_iat c) && Z.leb (c_iat c * second) t0 && Z.leb 0 t0
   && Z.ltb (t1 + v_offset v) (c_exp c * second) && Z.leb (c_exp c) (c_iat c + 3600)
-  && match e with EPrivateKey => is_private_key_jwt cl (c_iss c) | _ => true end.
+  && match e with
+     | EPrivateKey | ERouter true _ => is_private_key_jwt cl (c_iss c)
+     | ERouter false _ => match lookup_client cl (c_iss c) with Some _ => true | None => false end
+     | _ => true
+     end.
 
 Definition spec_assert (e : entry) (helper : bool) (v : vcfg) (t : keytable) (cl : clienttable)
     (t0 t1 : Z) (tok : token claims) (r : res (string * string)) : bool :=
@@ -91,7 +106,7 @@ Definition spec_assert (e : entry) (helper : bool) (v : vcfg) (t : keytable) (cl
           && String.eqb id (c_iss c)
           && match e with
              | EVerify => String.eqb sub (c_sub c)
-             | EPrivateKey => is_private_key_jwt cl (c_iss c)
+             | EPrivateKey | ERouter true _ => is_private_key_jwt cl (c_iss c)
              | _ => true
              end
       | _ => false
@@ -209,7 +224,9 @@ Definition obs_eqb (a b : observed) : bool :=
   end.
 
 Definition entry_nat (e : entry) : nat :=
-  match e with EVerify => 0 | EClientAuth => 1 | EPrivateKey => 2 | EGrant => 3 end.
+  match e with EVerify => 0 | EClientAuth => 1 | EPrivateKey => 2 | EGrant => 3
+  | ERouter false c => if String.eqb c "" then 4 else 5
+  | ERouter true c => if String.eqb c "" then 6 else 7 end.
 
 (* which guard of ParseRequestObject decides (all four answer invalid_request) *)
 Definition request_guard (outer : authreq) (issuer : string) (tok : token reqobj) : nat :=
